@@ -345,8 +345,14 @@ sexp json_write_string(sexp ctx, sexp self, const sexp obj, sexp out) {
   for (i = sexp_make_string_cursor(0); i < end;
        i = sexp_string_cursor_next(obj, i)) {
     ch = sexp_unbox_character(sexp_string_cursor_ref(ctx, obj, i));
-    if (ch < 0x7F) {
+    if (ch < 0x20 && ch != '\b' && ch != '\f' && ch != '\n' && ch != '\r' && ch != '\t') {
+      snprintf(cout, sizeof(cout), "\\u%04lX", ch);
+      sexp_write_string(ctx, cout, out);
+    } else if (ch < 0x7F) {
       switch (ch) {
+        case '"':
+          sexp_write_string(ctx, "\\\"", out);
+          break;
         case '\\':
           sexp_write_string(ctx, "\\\\", out);
           break;
